@@ -14,6 +14,9 @@ def h15(S, backend="mem", backlog=3, steps=3, window=None, foreign=True, retried
 
     A = ADAPTERS[backend]()
     S.tag("backend", backend)
+    if backend == "rabbit":
+        # the first deliveries of a starting consumer may be processed before its ConsumeOk reply
+        A.consume_ok_turns = [0, 3][S.pick("consume_ok_after_first_deliveries", 2)]
     seq = [0]
     info = {}       # id -> dict(since, fresh, own, place)
     trace = []
